@@ -210,6 +210,10 @@ var c19Positions = []c19Position{
 	{"filter-param", func(e string) map[string]string {
 		return map[string]string{"/main.tpl": "{% with w=" + e + " %}{{ \"base\"|vprobe_d:w }}{% endwith %}"}
 	}, func(v *pongo2.Value) string { return "d(base:" + v.String() + ")" }, false},
+	{"array-item", func(e string) map[string]string {
+		return map[string]string{"/main.tpl": "{% for i in [" + e + "] %}{{ i }}{% endfor %}"}
+	}, c19Print, false},
+	{"array-item-first", func(e string) map[string]string { return map[string]string{"/main.tpl": "{{ [\"z\", " + e + "]|last }}"} }, c19Print, false},
 	{"subscript", func(e string) map[string]string { return map[string]string{"/main.tpl": "{{ mp[" + e + "] }}"} }, nil, false},
 }
 
@@ -431,7 +435,7 @@ func init() {
 			return 4000
 		},
 		Run: c19Run,
-		Rule: "probe filters vprobe_a..d registered by the harness log (name, input, parameter) and return a non-commutative transformation; random chains of length 0-4 over the probes and over every deterministic registered filter (from the hook), with literal/variable/path parameters, are written at 14 expression positions (output, if/elif, for, with both styles, set, include with, macro argument, macro default, call argument, firstof, ifequal, filter parameter, subscript) and in the filter tag; " +
+		Rule: "probe filters vprobe_a..d registered by the harness log (name, input, parameter) and return a non-commutative transformation; random chains of length 0-4 over the probes and over every deterministic registered filter (from the hook), with literal/variable/path parameters, are written at 16 expression positions (items of array literals, output, if/elif, for, with both styles, set, include with, macro argument, macro default, call argument, firstof, ifequal, filter parameter, subscript) and in the filter tag; " +
 			"oracle: the probe log equals the written order with the right inputs and parameters (each application exactly once), the output equals the composition of public ApplyFilter calls (errors agree on both routes), the filter tag equals the chain applied to the rendered body; a fixed list checks precedence against every operator, parameter evaluation in the current scope (loops, macros, two executions of one compiled template), unregistered names in 20 positions and the registry's refusal of double registration / replacing a missing name. distinct_nontrivial = distinct (position, chain) pairs.",
 		MinNontriv:  2000,
 		Assumptions: []string{"registries are process-global: the probes are registered once per worker process", "the random filter is excluded"},
